@@ -604,12 +604,12 @@ class Enumerator(object):
             if v is not None and v[0] not in ('var', 'try', 'ctl'):
                 out = []
                 okp = path.fork()
-                if not canon.contradictory(okp.conds + [(S.show(v), 'Ok(_)')]):
+                if not canon.contradictory(okp.conds + [(okp.subject(S.show(v)), 'Ok(_)')]):
                     self.add_pat_cond(okp, v, 'Ok(_)', {'Ok'})
                     okp.value = ('field', v, 'Ok.0')
                     out.append(okp)
                 erp = path.fork()
-                if not canon.contradictory(erp.conds + [(S.show(v), 'Err(_)')]):
+                if not canon.contradictory(erp.conds + [(erp.subject(S.show(v)), 'Err(_)')]):
                     self.add_pat_cond(erp, v, 'Err(_)', {'Err'})
                     erp.value = ('call', 'Err', (('field', v, 'Err.0'),), ())
                     erp.done = 'return'
